@@ -25,10 +25,15 @@ func (b *Bus) Send(ctx context.Context, event any) (ok bool) {
 	needGc := false
 
 	// send the event to each listener that's not closed
-	for _, l := range listeners {
+	for i, l := range listeners {
 		simhook.Yield("bus.send.each")
 		ok, active := l.send(ctx, event)
 		if !ok {
+			// ctx ended while this listener was not taking the event. The listeners after it must not lose the
+			// event just because of their place in the list: whoever is ready for it right now still gets it.
+			for _, rest := range listeners[i+1:] {
+				rest.offer(event)
+			}
 			return false
 		}
 		if !active {
@@ -104,6 +109,17 @@ func (l *listener) send(ctx context.Context, event any) (ok bool, active bool) {
 	case l.ch <- event:
 		// event sent successfully
 		return true, true
+	}
+}
+
+// offer hands the event to the listener only if it is ready to take it right now.
+func (l *listener) offer(event any) {
+	l.m.RLock()
+	defer l.m.RUnlock()
+
+	select {
+	case l.ch <- event: // (a stopped listener's channel is nil and never ready)
+	default:
 	}
 }
 
